@@ -196,6 +196,46 @@ func runA(c *verdict.Ctx) {
 	}
 	close(gjobs)
 	gwg.Wait()
+	// ---- the same crash plans on a node whose configuration still says statesync.enable = true (left on after a
+	// state sync long ago) and that is not the only validator of its chain (a second validator with 1/11 of the
+	// power never shows up): a node that has state must ignore the setting and recover exactly as above
+	r2 := &crash.Runner{Bin: bin, Tmp: tmp, Special: special(), AbsentValidator: true, StateSyncLeftOn: true}
+	template2 := filepath.Join(tmp, "template-2v")
+	if err := r2.InitHome(template2, h0); err != nil {
+		c.HarnessError("two-validator template: %v", err)
+		return
+	}
+	cz2, err := takeCensus(r2, template2)
+	if err != nil {
+		// the census is a clean restart of the template; if that already fails it is the plans below that say so
+		// (the crash points of the one-validator census are used instead)
+		c.Count("statesync_left_on_census_failed", 1)
+		cz2 = cz
+	}
+	plans2 := allPlans(cz2, "")
+	order2 := c.Rand("plans-2v", 0).Perm(len(plans2))
+	n2 := c.N(64, len(plans2))
+	if n2 > len(plans2) {
+		n2 = len(plans2)
+	}
+	c.Set("statesync_left_on_crash_points_enumerated", len(plans2))
+	var wg2 sync.WaitGroup
+	jobs2 := make(chan int, 64)
+	for w := 0; w < runtime.NumCPU(); w++ {
+		wg2.Add(1)
+		go func() {
+			defer wg2.Done()
+			for k := range jobs2 {
+				runPlanAt(c, r2, template2, k, plans2[order2[k]], h0, "statesync-left-on-plan")
+				c.Count("statesync_left_on_plans_run", 1)
+			}
+		}()
+	}
+	for k := 0; k < n2; k++ {
+		jobs2 <- k
+	}
+	close(jobs2)
+	wg2.Wait()
 }
 
 func runPlanA(c *verdict.Ctx, r *crash.Runner, template string, k int, first string) {
